@@ -236,9 +236,13 @@ def cmd_check(prop, tier, verif_seed, runs=None, workers=None):
                 print(f'  (regression of fixed finding {k["id"]}: {k["what"]})')
 
     # 2. exploration
+    def counts(r):  # violations covered by a listed finding do not count towards the early-stop limit
+        case = dict(r['case'], property=prop)
+        return core.match_known(prop, signature(spec, case), known) is None
+
     results, truncated = core.run_batch(spec['mod'], 'engine_run', prop, verif_seed, spec['engine'], n_runs,
                                         workers=workers, wall_cap_s=spec.get('wall_cap', {}).get(tier),
-                                        sample_idx=(0, 1, 2), extra=spec.get('extra'))
+                                        sample_idx=(0, 1, 2), extra=spec.get('extra'), counts=counts)
     errors = [r for r in results if r.get('error')]
     timeouts = [r for r in results if r.get('timeout')]
     if errors:
